@@ -7,6 +7,9 @@ From DynVerif Require Import Base Graph Spec.
 From DynVerif.proofs Require Import CoreInv QueryFacts QueryFacts2.
 From DynVerif Require Import StatsSpec.
 From DynVerif.proofs Require Import HistSpecFacts.
+From DynVerif Require Import PySupportCore.
+From DynVerif.gen Require Import PyGenCore.
+From DynVerif.proofs Require Import PyGenCoreEq.
 
 Theorem C02_reach : forall dir rem cs, InvAdj (run_calls (empty_graph dir rem) cs).
 Proof. intros. apply InvAdj_run, InvAdj_init. Qed.
@@ -191,6 +194,16 @@ Theorem C02_history_size : forall cs t ks,
   size g (Some t) = Z.of_nat (length (filter (fun k => pres true true h k t) ks)).
 Proof. intros cs t ks g h Hn Hc. exact (hist_size_directed true cs eq_refl t ks Hn Hc). Qed.
 Print Assumptions C02_history_size.
+
+(** source-level tie: the private presence test every query of this file filters the adjacency with - the Gallina text
+    GENERATED from `__presence_test` of both classes (tools/py2gallina_core.py, regenerated from /repo on every run) - is the
+    model's [presence_test] on the stored timeline (DynGraph: for an existing entry, as its callers guarantee; DynDiGraph: the
+    method checks the entry itself) *)
+Theorem C02_source_text : forall (g : graph) (u v t : Z),
+  (forall tl, adj_entry g u v = Some tl -> py_presence_test_graph g u v t = presence_test g tl t) /\
+  py_presence_test_digraph g u v t = key_present g (nk (g_dir g) u v) (Some t).
+Proof. intros. split; [intros tl E; apply py_presence_test_graph_eq; exact E|apply py_presence_test_digraph_eq]. Qed.
+Print Assumptions C02_source_text.
 
 Example C02_example :
   let g := run_calls (empty_graph true true) [mkCall 1 2 0 (Some 3); mkCall 3 1 1 None; mkCall 1 1 2 None] in
